@@ -30,6 +30,34 @@ func vfC20WellFormed(s SequenceID) bool {
 	return s.LowSeq == 0 || s.LowSeq < s.Seq
 }
 
+// vfC20RefKey is the position a well-formed token denotes in a changes listing, written from the
+// documented token semantics (not from Before): a plain token S sits at S; a back-fill row T:S sits at
+// its trigger T, before the plain row T ("n" sorts after "n:m") and ordered by S among the rows of the
+// same trigger; a token carrying a low sequence L (L::S, L:T:S) sits at L — the position a client resumes
+// from — after the plain and back-fill rows of L, ordered by its remainder. Keys compare lexicographically.
+func vfC20RefKey(s SequenceID) []uint64 {
+	rest := func(trig, seq uint64) []uint64 {
+		if trig != 0 {
+			return []uint64{trig, 0, seq}
+		}
+		return []uint64{seq, 1, 0}
+	}
+	if s.LowSeq != 0 {
+		return append([]uint64{s.LowSeq, 2}, rest(s.TriggeredBy, s.Seq)...)
+	}
+	return rest(s.TriggeredBy, s.Seq)
+}
+
+func vfC20RefLess(a, b SequenceID) bool {
+	ka, kb := vfC20RefKey(a), vfC20RefKey(b)
+	for i := 0; i < len(ka) && i < len(kb); i++ {
+		if ka[i] != kb[i] {
+			return ka[i] < kb[i]
+		}
+	}
+	return len(ka) < len(kb)
+}
+
 func vfC20R(s SequenceID) string {
 	return fmt.Sprintf("{TriggeredBy:%d LowSeq:%d Seq:%d}=%q", s.TriggeredBy, s.LowSeq, s.Seq, s.String())
 }
@@ -131,7 +159,7 @@ func TestVerif_C20_Exhaustive(t *testing.T) {
 			before[i][j] = all[i].Before(all[j])
 		}
 	}
-	var mixedPairs, mixedTriples, pairs, triples int64
+	var mixedPairs, mixedTriples, pairs, triples, listingPairs int64
 	forms := make([]string, n)
 	for i, s := range all {
 		forms[i] = vfC20Form(s)
@@ -157,6 +185,12 @@ func TestVerif_C20_Exhaustive(t *testing.T) {
 			if before[i][j] && before[j][i] {
 				kit.Violation(t, "C20", "Exhaustive", fmt.Sprintf("a=%s b=%s", vfC20R(s), vfC20R(all[j])), "Before is not asymmetric: a.Before(b) and b.Before(a)")
 			}
+			if vfC20WellFormed(s) && vfC20WellFormed(all[j]) && s.Seq != 0 && all[j].Seq != 0 {
+				listingPairs++
+				if before[i][j] != vfC20RefLess(s, all[j]) {
+					kit.Violation(t, "C20", "Exhaustive", fmt.Sprintf("a=%s b=%s", vfC20R(s), vfC20R(all[j])), "Before disagrees with the listing order of well-formed tokens: a.Before(b)=%v, but by the documented token semantics a is listed before b = %v", before[i][j], vfC20RefLess(s, all[j]))
+				}
+			}
 			if !before[i][j] {
 				continue
 			}
@@ -181,6 +215,7 @@ func TestVerif_C20_Exhaustive(t *testing.T) {
 	rec.Class("structs", int64(n))
 	rec.Class("well_formed_structs_in_shard", int64(wf))
 	rec.Class("pairs", pairs)
+	rec.Class("well_formed_pairs_checked_against_listing_order", listingPairs)
 	rec.Class("triples_with_a_before_b", triples)
 	rec.Bulk(pairs+triples, mixedPairs+mixedTriples)
 	rec.Sample(fmt.Sprintf("all %d structs with fields in 0..%d: round trip of each (e.g. %+v -> %q); Before on %d ordered pairs and %d triples (a<b fixed), %d/%d mixing token forms",
@@ -234,6 +269,9 @@ func TestVerif_C20_Random(t *testing.T) {
 				}
 				if x.Before(y) && y.Before(x) {
 					kit.Violation(t, "C20", "Random", render, "not asymmetric at %+v, %+v", x, y)
+				}
+				if vfC20WellFormed(x) && vfC20WellFormed(y) && x.Seq != 0 && y.Seq != 0 && x.Before(y) != vfC20RefLess(x, y) {
+					kit.Violation(t, "C20", "Random", render, "Before disagrees with the listing order of well-formed tokens %s and %s: Before=%v, listed-before=%v", vfC20R(x), vfC20R(y), x.Before(y), vfC20RefLess(x, y))
 				}
 				if x.Before(y) && !x.Before(z) && !z.Before(y) {
 					kit.Violation(t, "C20", "Random", render, "not a strict weak order: %s < %s but %s is neither after the first nor before the second", vfC20R(x), vfC20R(y), vfC20R(z))
